@@ -37,6 +37,9 @@ MUTATORS = set(_ENGINE_MUTATORS) | {'extend_preserving_lflags', 'append_unique',
 PURE_NAMES = {'list', 'tuple', 'set', 'frozenset', 'sorted', 'reversed', 'dict', 'str', 'iter', 'next', 'enumerate', 'zip',
               'unwrap', 'listify', 'unique_list', 'chain'}
 MAX_SEGS = 5
+import builtins as _builtins
+BUILTIN_NAMES = set(dir(_builtins))
+IMPURE_BUILTINS = {'eval', 'exec', 'getattr', 'setattr', 'delattr', 'globals', 'locals', 'vars', 'super', 'compile', '__import__', 'open', 'input'}
 MAX_DEPTH = 3
 ELEMENT_CLASS = 'NinjaBuildElement'
 # Repository callees whose result is deliberately NOT derived from (part of) their arguments: nothing flows through them.
@@ -71,8 +74,17 @@ def ext_path(path: str, suffix: str) -> T.Optional[str]:
     return p if _segs(p) <= MAX_SEGS else None
 
 
+def split_maybe(label: str) -> T.Tuple[str, str]:
+    """'?7|attr:target.pch' -> ('?7|', 'attr:target.pch'); a definite label has the empty tag."""
+    if label.startswith('?'):
+        tag, _, inner = label.partition('|')
+        return tag + '|', inner
+    return '', label
+
+
 def label_root(label: str) -> T.Tuple[str, str, str]:
     """'attr:target.pch' -> ('attr', 'target', '.pch')."""
+    label = split_maybe(label)[1]
     kind, _, path = label.partition(':')
     m = _ROOT.match(path)
     if not m:
@@ -99,7 +111,10 @@ def module_imports(mod: Module) -> T.Dict[str, str]:
                 else:
                     m = st.module or ''
                 for a in st.names:
-                    out[a.asname or a.name] = f'{m}.{a.name}'
+                    if a.name == '*':
+                        out['*'] = (out.get('*', '') + ',' + m).strip(',')
+                    else:
+                        out[a.asname or a.name] = f'{m}.{a.name}'
             elif isinstance(st, (ast.If, ast.Try)):
                 for field in ('body', 'orelse', 'finalbody'):
                     rec(getattr(st, field, []))
@@ -134,11 +149,14 @@ class Sink(T.NamedTuple):
 
 
 class Summary:
-    def __init__(self, combined: Val, elements: T.Optional[T.List[Val]], sinks: T.List[T.Tuple[str, str, Val, str]], params: T.List[str]):
+    def __init__(self, combined: Val, elements: T.Optional[T.List[Val]], sinks: T.List[T.Tuple[str, str, Val, str]], params: T.List[str],
+                 ff: T.Optional['FuncFlow'] = None):
         self.combined = combined
         self.elements = elements
         self.sinks = sinks        # (element parameter, kind, value over the callee's parameters, description)
         self.params = params
+        self.ff = ff              # for the lazily computed parts (opaque uses, elements registered inside the callee)
+        self.impure_closure = False
 
 
 def bind_args(fn: ast.AST, call: ast.Call, skip_self: bool) -> T.Optional[T.Dict[str, ast.AST]]:
@@ -180,6 +198,40 @@ class Analyzer:
         self.summarised: T.Set[str] = set()
         self._methods: T.Optional[T.Dict[str, T.Tuple[Module, str, ast.AST]]] = None
         self._imports: T.Dict[str, T.Dict[str, str]] = {}
+        self.why_none: T.Dict[int, str] = {}          # id(fn) -> why the last summary request gave None
+        self.sites: T.List[T.Tuple[T.Optional[ast.AST], str]] = []   # unfollowed callees: (function if its source is known, description)
+        self._site_of: T.Dict[T.Any, int] = {}
+        self._mentions: T.Dict[T.Tuple[int, str], bool] = {}
+
+    def site(self, cfn: T.Optional[ast.AST], desc: str) -> int:
+        key = id(cfn) if cfn is not None else desc
+        if key not in self._site_of:
+            self._site_of[key] = len(self.sites)
+            self.sites.append((cfn, desc))
+        return self._site_of[key]
+
+    def mentions(self, fn: ast.AST, leaf: str, depth: int = 3) -> bool:
+        """Does the body of fn (or of a self./module-level callee, to `depth`) spell the identifier `leaf`?  Used to decide
+        whether a callee that was not analysed could be the place a dependency source moved to."""
+        key = (id(fn), leaf)
+        if key in self._mentions:
+            return self._mentions[key]
+        self._mentions[key] = False
+        hit = False
+        callees: T.List[ast.AST] = []
+        for n in ast.walk(fn):
+            if (isinstance(n, ast.Attribute) and n.attr == leaf) or (isinstance(n, ast.Name) and n.id == leaf) \
+                    or (isinstance(n, ast.arg) and n.arg == leaf) or (isinstance(n, ast.keyword) and n.arg == leaf):
+                hit = True
+                break
+            if isinstance(n, ast.Call) and isinstance(n.func, ast.Attribute) and isinstance(n.func.value, ast.Name) and n.func.value.id == 'self':
+                r = self.resolve_self(n.func.attr)
+                if r is not None:
+                    callees.append(r[2])
+        if not hit and depth > 0:
+            hit = any(self.mentions(c, leaf, depth - 1) for c in callees if c is not fn)
+        self._mentions[key] = hit
+        return hit
 
     def resolve_self(self, name: str) -> T.Optional[T.Tuple[Module, str, ast.AST]]:
         if self.dyn_mod is None or self.dyn_cls is None:
@@ -194,6 +246,27 @@ class Analyzer:
             self._methods = tab
         return self._methods.get(name)
 
+    def resolve_function(self, dotted: str, _depth: int = 4) -> T.Optional[T.Tuple[Module, str, ast.AST]]:
+        """A module-level repository function by dotted name, looking through re-exports (`from .x import name`, `from .x import *`)."""
+        modpath, _, name = dotted.rpartition('.')
+        if not modpath or _depth < 0 or not modpath.startswith('mesonbuild'):
+            return None
+        m2 = self.repo.module_by_dotted(modpath)
+        if m2 is None:
+            return None
+        if m2.has_func(name):
+            return m2, name, m2.func(name)
+        if m2.has_cls(name):
+            return None
+        imps = self.imports(m2)
+        if name in imps and imps[name] != dotted:
+            return self.resolve_function(imps[name], _depth - 1)
+        for star in [x for x in imps.get('*', '').split(',') if x]:
+            r = self.resolve_function(f'{star}.{name}', _depth - 1)
+            if r is not None:
+                return r
+        return None
+
     def imports(self, mod: Module) -> T.Dict[str, str]:
         t = self._imports.get(mod.rel)
         if t is None:
@@ -201,28 +274,33 @@ class Analyzer:
             self._imports[mod.rel] = t
         return t
 
-    def flow(self, mod: Module, qual: str, fn: ast.AST, depth: T.Optional[int] = None) -> 'FuncFlow':
+    def flow(self, mod: Module, qual: str, fn: ast.AST, depth: T.Optional[int] = None, implicit: T.Sequence[str] = ()) -> 'FuncFlow':
         depth = self.depth if depth is None else depth
         key = (mod.rel, id(fn), depth)
         ff = self._flows.get(key)
         if ff is None:
-            ff = FuncFlow(self, mod, qual, fn, depth)
+            ff = FuncFlow(self, mod, qual, fn, depth, implicit)
             self._flows[key] = ff
         return ff
 
-    def summary(self, mod: Module, qual: str, fn: ast.AST, depth: int) -> T.Optional[Summary]:
+    def summary(self, mod: Module, qual: str, fn: ast.AST, depth: int, implicit: T.Sequence[str] = ()) -> T.Optional[Summary]:
         """Summary of a callee analysed with `depth` levels of callees below it; None = not summarised."""
-        if depth < 0 or id(fn) in self.stack:
+        if id(fn) in self.stack:
+            self.why_none[id(fn)] = 'recursion'
+            return None
+        if depth < 0:
+            self.why_none[id(fn)] = 'depth'
             return None
         key = (mod.rel, id(fn), depth)
         if key in self._summ:
             return self._summ[key]
         self.stack.append(id(fn))
         try:
-            ff = self.flow(mod, qual, fn, depth)
+            ff = self.flow(mod, qual, fn, depth, implicit)
             s: T.Optional[Summary] = ff.summarise()
         except Undecided:
             s = None
+            self.why_none[id(fn)] = 'undecided'
         finally:
             self.stack.pop()
         self._summ[key] = s
@@ -232,8 +310,9 @@ class Analyzer:
 
 
 class FuncFlow:
-    def __init__(self, an: Analyzer, mod: Module, qual: str, fn: ast.AST, depth: int):
+    def __init__(self, an: Analyzer, mod: Module, qual: str, fn: ast.AST, depth: int, implicit: T.Sequence[str] = ()):
         self.an = an
+        self.implicit = [p for p in implicit]
         self.mod = mod
         self.qual = qual
         self.fn = fn
@@ -245,7 +324,8 @@ class FuncFlow:
             self.params.append(a.vararg.arg)
         if a.kwarg:
             self.params.append(a.kwarg.arg)
-        self.method = is_method(fn)
+        self.params += [p for p in self.implicit if p not in self.params]   # captured variables of a closure
+        self.method = is_method(fn) or 'self' in self.implicit
         self.selfname = 'self' if self.method else None
         self.defs: T.List[Def] = []
         self.by_node: T.Dict[int, T.List[Def]] = {}
@@ -262,6 +342,8 @@ class FuncFlow:
         self._sinks: T.Optional[T.List[Sink]] = None
         self._reach_cache: T.Dict[int, T.Set[int]] = {}
         self._attr_busy: T.Set[str] = set()
+        self._opaque: T.Optional[T.List[T.Tuple[Node, str, T.Tuple[ast.AST, ...], T.Optional[ast.AST], T.Optional[Val], bool]]] = None
+        self._inner_serial = 0
 
     # -- definitions ------------------------------------------------------
     def _newdef(self, name: str, node: Node, strong: bool, value: T.Optional[ast.AST], index: T.Optional[int] = None,
@@ -296,6 +378,27 @@ class FuncFlow:
             if c is not None and value is not None:
                 self.attr_defs.setdefault(c, []).append((node, value, index))
 
+    def _bind_iter(self, node: Node, target: ast.AST, it: ast.AST) -> None:
+        """`for t in it`: t is an *element* of it.  Over a display every element expression is one definition of t
+        (`for fn in (self.a, self.b)`, `for add, what in ((e.add_dep, x), (e.add_orderdep, y))`); otherwise t inherits from it."""
+        if isinstance(it, (ast.Tuple, ast.List)) and it.elts and not any(isinstance(e, ast.Starred) for e in it.elts):
+            if isinstance(target, ast.Name):
+                for e in it.elts:
+                    self._newdef(target.id, node, True, e)
+                return
+            if isinstance(target, (ast.Tuple, ast.List)) and all(isinstance(e, (ast.Tuple, ast.List)) and len(e.elts) == len(target.elts) for e in it.elts) \
+                    and all(isinstance(t, ast.Name) for t in target.elts):
+                for e in it.elts:
+                    for t, v in zip(target.elts, e.elts):  # type: ignore[attr-defined]
+                        self._newdef(t.id, node, True, v)  # type: ignore[attr-defined]
+                return
+        if isinstance(target, (ast.Tuple, ast.List)):
+            for t in ast.walk(target):
+                if isinstance(t, ast.Name):
+                    self._newdef(t.id, node, True, it)
+            return
+        self._bind(node, target, it, True)
+
     def _inner(self, node: Node, e: T.Optional[ast.AST]) -> None:
         if e is None:
             return
@@ -315,7 +418,7 @@ class FuncFlow:
         st = n.ast
         if n.kind == 'stmt':
             if isinstance(st, (ast.FunctionDef, ast.AsyncFunctionDef, ast.ClassDef)):
-                self._newdef(st.name, n, True, None)
+                self._newdef(st.name, n, True, st)
                 return
             if isinstance(st, ast.Assign):
                 for t in st.targets:
@@ -336,7 +439,7 @@ class FuncFlow:
         elif n.kind == 'test':
             self._inner(n, st.test)  # type: ignore[union-attr]
         elif n.kind == 'iter':
-            self._bind(n, st.target, st.iter, True)  # type: ignore[union-attr]
+            self._bind_iter(n, st.target, st.iter)  # type: ignore[union-attr]
             self._inner(n, st.iter)  # type: ignore[union-attr]
         elif n.kind == 'with_enter':
             for i in st.items:  # type: ignore[union-attr]
@@ -462,7 +565,7 @@ class FuncFlow:
             if d.name == self.selfname:
                 return frozenset(['self']), frozenset()
             return frozenset([d.name]), frozenset([f'param:{d.name}'])
-        if d.value is None:
+        if d.value is None or isinstance(d.value, (ast.FunctionDef, ast.AsyncFunctionDef, ast.ClassDef)):
             return frozenset(), frozenset(['opaque'])
         node = self.cfg.nodes[d.node]
         v = self._ev_top(d.value, node, d.index, look)
@@ -552,13 +655,30 @@ class FuncFlow:
             return frozenset(), vjoin(*vs)[1]
         return EMPTY
 
+    def _maybe(self, cfn: T.Optional[ast.AST], desc: str, lab: str, argsval: Val, recv_self: bool = False) -> Val:
+        """Result of a callee this analysis does not follow: it carries its own label definitely, and everything its
+        arguments carry as *maybe* labels `?<site>|<label>` - enough to tell "provably does not arrive" from "arrives,
+        if at all, through code that was not analysed"."""
+        n = self.an.site(cfn, desc)
+        out = {lab}
+        for x in argsval[1]:
+            tag, inner = split_maybe(x)
+            if inner in ('const', 'opaque') or inner.startswith(('const:', 'name:')):
+                continue
+            out.add(x if tag else f'?{n}|{inner}')
+        if recv_self:
+            out.add(f'?{n}|self')
+        return frozenset(), frozenset(out)
+
     def _args_val(self, call: ast.Call, node: Node, env: T.Dict[str, Val], look: T.Callable[[str, Node], Val]) -> Val:
         vs = [self._ev(a, node, env, look) for a in call.args] + [self._ev(k.value, node, env, look) for k in call.keywords]
         return frozenset(), vjoin(*vs)[1]
 
-    def map_summary(self, val: Val, bind: T.Dict[str, ast.AST], evalf: T.Callable[[ast.AST], Val]) -> Val:
-        """Rewrite a value over a callee's parameters into the caller's terms; labels not rooted at a bound
-        parameter describe callee internals and are dropped."""
+    def map_summary(self, val: Val, bind: T.Dict[str, ast.AST], evalf: T.Callable[[ast.AST], Val], keep_self: bool = False) -> Val:
+        """Rewrite a value over a callee's parameters into the caller's terms.  Labels rooted at a bound parameter are
+        re-rooted at the actual argument; with `keep_self` (callee is a method of the same object) labels rooted at
+        `self` stay as they are, so that extracting a block into a helper method (or inlining one) does not change
+        what a value is known to derive from.  Other labels describe callee locals/globals and are dropped."""
         cache: T.Dict[str, Val] = {}
 
         def actual(p: str) -> Val:
@@ -566,22 +686,114 @@ class FuncFlow:
                 cache[p] = evalf(bind[p])
             return cache[p]
         der: T.Set[str] = set()
-        for lab in val[1]:
+
+        def emit(tag: str, lab: str) -> None:
+            der.add(lab if (not tag or lab.startswith('?')) else tag + lab)
+        for full in val[1]:
+            tag, lab = split_maybe(full)
             if lab == 'const':
-                der.add(lab)
+                if not tag:
+                    der.add(lab)
+                continue
+            if lab == 'self':          # marker of a maybe-label: the unfollowed callee was a method of this object
+                if keep_self:
+                    der.add(full)
                 continue
             kind, root, rest = label_root(lab)
+            if keep_self and root == 'self':
+                der.add(full)
+                continue
             if root not in bind:
                 continue
             a = actual(root)
             if kind == 'param' and not rest:
-                der |= a[1]
+                for x in a[1]:
+                    emit(tag, x)
             else:
                 for p in a[0]:
                     q = ext_path(p, rest)
                     if q is not None:
-                        der.add(f'{kind}:{q}')
+                        emit(tag, f'{kind}:{q}')
+                if tag:
+                    for x in a[1]:     # the root object itself went into the unfollowed callee
+                        if split_maybe(x)[1].startswith('param:'):
+                            emit(tag, x)
         return frozenset(), frozenset(der)
+
+    def resolve_callable(self, func: ast.AST, node: Node, _seen: T.Optional[T.Set[int]] = None) -> T.Optional[T.List[T.Tuple[str, T.Any]]]:
+        """What a local name used as a callee stands for: [('attr', expression)] for `add = elem.add_dep` /
+        `f = a.m if c else b.m` / `for fn in (self.a, self.b)`, [('nested', FunctionDef)] for a closure defined in this
+        function; None when it cannot be told (a parameter, a computed callable)."""
+        if not isinstance(func, ast.Name):
+            return None
+        ds = self.IN[node.id].get(func.id, frozenset())
+        if not ds:
+            return None
+        seen = _seen if _seen is not None else set()
+        out: T.List[T.Tuple[str, T.Any]] = []
+
+        def of_expr(v: ast.AST, at: Node) -> bool:
+            if isinstance(v, (ast.FunctionDef, ast.AsyncFunctionDef, ast.Lambda)):
+                out.append(('nested', v))
+                return True
+            if isinstance(v, ast.Attribute):
+                root = v
+                while isinstance(root, ast.Attribute):
+                    root = root.value
+                if isinstance(root, ast.Name) and root.id in self.local_names and root.id != self.selfname \
+                        and self.IN[at.id].get(root.id) != self.IN[node.id].get(root.id):
+                    return False          # the receiver was re-bound between taking the method and calling it
+                out.append(('attr', v))
+                return True
+            if isinstance(v, ast.IfExp):
+                return of_expr(v.body, at) and of_expr(v.orelse, at)
+            if isinstance(v, ast.Name):
+                r = self.resolve_callable(v, at, seen)
+                if r is None:
+                    return False
+                out.extend(r)
+                return True
+            return False
+        for i in ds:
+            if i in seen:
+                continue
+            seen.add(i)
+            d = self.defs[i]
+            if d.param or not d.strong or d.index is not None or d.value is None:
+                return None
+            at = self.cfg.nodes[d.node]
+            if not of_expr(d.value, at):
+                return None
+        return out or None
+
+    def closure_summary(self, fn: ast.AST) -> T.Tuple[T.Optional[Summary], T.List[str]]:
+        """Summary of a function nested in this one; the variables it captures become extra (implicit) parameters."""
+        bound = {a.arg for a in fn.args.posonlyargs + fn.args.args + fn.args.kwonlyargs}  # type: ignore[attr-defined]
+        if fn.args.vararg:  # type: ignore[attr-defined]
+            bound.add(fn.args.vararg.arg)  # type: ignore[attr-defined]
+        if fn.args.kwarg:  # type: ignore[attr-defined]
+            bound.add(fn.args.kwarg.arg)  # type: ignore[attr-defined]
+        assigned = set()
+        read = []
+        impure = False
+        for n in ast.walk(fn):
+            if isinstance(n, ast.Name):
+                if isinstance(n.ctx, ast.Load):
+                    read.append(n.id)
+                else:
+                    assigned.add(n.id)
+            elif isinstance(n, (ast.Nonlocal, ast.Global)):
+                impure = True
+        free = []
+        for x in read:
+            if x not in bound and x not in assigned and x in self.local_names and x not in free:
+                free.append(x)
+        summ = self.an.summary(self.mod, f'{self.qual}.{getattr(fn, "name", "<lambda>")}', fn, self.depth - 1, implicit=free)
+        if summ is not None and summ.ff is not None:
+            # a closure that mutates what it captured is an effect on the caller's locals the summary does not carry
+            if impure or any((not d.strong or not d.param) and d.name in free for d in summ.ff.defs if d.name in free and not d.param):
+                summ.impure_closure = True
+        return summ, free
 
     def _callee(self, call: ast.Call) -> T.Optional[T.Tuple[str, Module, str, ast.AST, bool]]:
         """(label path, module, qualified name, function, is self-call) for a repository callee, else None."""
@@ -593,8 +805,14 @@ class FuncFlow:
                 return None
             m, q, fn = r
             return f'self.{f.attr}()', m, q, fn, is_method(fn)
-        if isinstance(f, ast.Name) and f.id not in self.local_names and self.mod.has_func(f.id):
-            return f'{f.id}()', self.mod, f.id, self.mod.func(f.id), False
+        if isinstance(f, ast.Name) and f.id not in self.local_names:
+            if self.mod.has_func(f.id):
+                return f'{f.id}()', self.mod, f.id, self.mod.func(f.id), False
+            origin = self.an.imports(self.mod).get(f.id)
+            if origin is not None and not f.id[:1].isupper():
+                r = self.an.resolve_function(origin)
+                if r is not None:
+                    return f'{f.id}()', r[0], r[1], r[2], False
         return None
 
     def _module_call(self, e: ast.Call) -> T.Optional[T.Tuple[str, T.Any]]:
@@ -612,12 +830,14 @@ class FuncFlow:
         origin = self.an.imports(self.mod).get(root)
         if origin is None or not origin.startswith('mesonbuild'):
             return ('lib', None)
+        if origin == 'mesonbuild.mlog':
+            return ('log', None)            # logging: returns nothing that could be a dependency
         if any(p[:1].isupper() for p in parts):
             return ('lib', None)            # Class(...) / Class.classmethod(...): a constructor
-        m2 = self.an.repo.module_by_dotted(origin)
-        if m2 is not None and len(parts) == 2 and m2.has_func(parts[1]):
-            fn = m2.func(parts[1])
-            return ('repo', (f'{chain}()', m2, parts[1], fn, False))
+        if len(parts) == 2:
+            r = self.an.resolve_function(f'{origin}.{parts[1]}')
+            if r is not None:
+                return ('repo', (f'{chain}()', r[0], r[1], r[2], False))
         return ('unknown', None)
 
     def _ev_call(self, e: ast.Call, node: Node, env: T.Dict[str, Val], look: T.Callable[[str, Node], Val],
@@ -628,26 +848,55 @@ class FuncFlow:
             path = f'self.{f.attr}()'
             return self._ev_repo_call(e, node, env, look, index, path, cal)
         if isinstance(f, ast.Name):
-            if f.id in env or f.id in self.local_names:
-                return frozenset(), vjoin(self._ev(f, node, env, look), self._args_val(e, node, env, look))[1]
+            if f.id in env:
+                return self._maybe(None, f'local callable {f.id}', f'call:<local {f.id}>()', self._args_val(e, node, env, look))
+            if f.id in self.local_names:
+                cands = self.resolve_callable(f, node)
+                if cands is None:       # unknown callable: nothing flows through it definitely
+                    return self._maybe(None, f'local callable {f.id}', f'call:<local {f.id}>()', self._args_val(e, node, env, look))
+                vals = []
+                for kind, what in cands:
+                    if kind == 'attr':
+                        syn = ast.copy_location(ast.Call(func=what, args=e.args, keywords=e.keywords), e)
+                        vals.append(self._ev_call(syn, node, env, look, index))
+                    else:
+                        summ, free = self.closure_summary(what)
+                        lab = f'call:<closure {getattr(what, "name", "lambda")}>()'
+                        bind = bind_args(what, e, False) if summ is not None else None
+                        if summ is None or summ.impure_closure or bind is None:
+                            if summ is None and self.an.why_none.get(id(what)) == 'recursion':
+                                vals.append((frozenset(), frozenset([lab])))
+                                continue
+                            caps = vjoin(self._args_val(e, node, env, look), *[self._ev(ast.Name(id=p, ctx=ast.Load()), node, env, look) for p in free])
+                            vals.append(self._maybe(what, f'closure {getattr(what, "name", "lambda")}', lab, caps, 'self' in free))
+                            continue
+                        for p in free:
+                            bind[p] = ast.copy_location(ast.Name(id=p, ctx=ast.Load()), e)
+                        use_index = index is not None and summ.elements is not None and index < len(summ.elements)
+                        val = summ.elements[index] if use_index else summ.combined  # type: ignore[index]
+                        mapped = self.map_summary(val, bind, lambda x: self._ev(x, node, env, look), keep_self='self' in free)
+                        vals.append((frozenset(), mapped[1] | {lab}))
+                return vjoin(*vals)
             cal = self._callee(e)
             if cal is not None:
                 return self._ev_repo_call(e, node, env, look, index, f'{f.id}()', cal)
             lab = frozenset([f'call:{f.id}()'])
-            if f.id in PURE_NAMES or f.id[:1].isupper():
+            if f.id in PURE_NAMES or f.id[:1].isupper() or (f.id in BUILTIN_NAMES and f.id not in IMPURE_BUILTINS):
                 return frozenset(), lab | self._args_val(e, node, env, look)[1]
-            return frozenset(), lab          # unknown callee: nothing flows through
+            return self._maybe(None, f'function {f.id}', f'call:{f.id}()', self._args_val(e, node, env, look))   # unknown callee
         if isinstance(f, ast.Attribute):
             if isinstance(f.value, ast.Call) and isinstance(f.value.func, ast.Name) and f.value.func.id == 'super':
-                return frozenset(), frozenset([f'call:super().{f.attr}()'])     # base-class method: an unknown callee
+                return self._maybe(None, f'super().{f.attr}', f'call:super().{f.attr}()', self._args_val(e, node, env, look), True)
             how = self._module_call(e)
             if how is not None:
                 kind, payload = how
                 chain = attr_chain(f) or ''
                 if kind == 'repo':
                     return self._ev_repo_call(e, node, env, look, index, f'{chain}()', payload)
-                if kind == 'unknown':
-                    return frozenset(), frozenset([f'call:{chain}()'])         # repository function we cannot summarise
+                if kind == 'unknown':          # repository function we cannot summarise
+                    return self._maybe(None, f'{chain}', f'call:{chain}()', self._args_val(e, node, env, look))
+                if kind == 'log':
+                    return frozenset(), frozenset([f'call:{chain}()'])
             recv = self._ev(f.value, node, env, look)
             ids = set()
             der = set(recv[1])
@@ -674,11 +923,18 @@ class FuncFlow:
             # a known position of a tuple result: only the positional label (the unpositioned one means "position unknown")
             ids = {f'{path}[{index}]'}
             der = {f'call:{path}[{index}]'}
+        cut = cal is not None and cal[2].rsplit('.', 1)[-1] in CUTS
+        if cal is None and not cut:
+            return frozenset(ids), self._maybe(None, path, f'call:{path}', self._args_val(e, node, env, look), path.startswith('self.'))[1]
+        if summ is None and cal is not None and not cut and self.an.why_none.get(id(cal[3])) != 'recursion':
+            return frozenset(ids), self._maybe(cal[3], path, f'call:{path}', self._args_val(e, node, env, look), cal[4])[1]
         if summ is not None and cal is not None:
             bind = bind_args(cal[3], e, cal[4])
+            if bind is None:
+                return frozenset(ids), (der | self._maybe(cal[3], path, f'call:{path}', self._args_val(e, node, env, look), cal[4])[1])
             if bind is not None:
                 val = summ.elements[index] if use_index else summ.combined  # type: ignore[index]
-                mapped = self.map_summary(val, bind, lambda x: self._ev(x, node, env, look))
+                mapped = self.map_summary(val, bind, lambda x: self._ev(x, node, env, look), keep_self=cal[4])
                 der |= mapped[1]
         return frozenset(ids), frozenset(der)
 
@@ -717,7 +973,7 @@ class FuncFlow:
             ds = self.IN[s.node.id].get(s.elem, frozenset())
             if any(self.defs[d].param for d in ds):
                 sinks.append((s.elem, s.kind, self.sink_value(s), s.desc))
-        return Summary(combined, elements, sinks, [p for p in self.params if p != self.selfname])
+        return Summary(combined, elements, sinks, [p for p in self.params if p != self.selfname], self)
 
     # -- sinks --------------------------------------------------------------
     def _elem_candidates(self) -> T.Set[str]:
@@ -727,8 +983,8 @@ class FuncFlow:
             if p.annotation is not None and ELEMENT_CLASS in norm(p.annotation):
                 out.add(p.arg)
         for n in walk_no_nested(self.fn):
-            if isinstance(n, ast.Assign) and isinstance(n.value, ast.Call) and call_name(n.value) == ELEMENT_CLASS:
-                for t in n.targets:
+            if isinstance(n, (ast.Assign, ast.AnnAssign)) and isinstance(n.value, ast.Call) and call_name(n.value) == ELEMENT_CLASS:
+                for t in (n.targets if isinstance(n, ast.Assign) else [n.target]):
                     if isinstance(t, ast.Name):
                         out.add(t.id)
             elif isinstance(n, ast.Call) and isinstance(n.func, ast.Attribute):
@@ -759,41 +1015,71 @@ class FuncFlow:
             return self._sinks
         cands = self._elem_candidates()
         out: T.List[Sink] = []
+
+        def from_summary(n: Node, c: ast.Call, summ: T.Optional[Summary], fn: ast.AST, skip: bool, extra: T.Sequence[str], keep_self: bool) -> None:
+            if summ is None or summ.impure_closure:
+                return
+            bind = bind_args(fn, c, skip)
+            if bind is None:
+                return
+            for p in extra:
+                bind[p] = ast.copy_location(ast.Name(id=p, ctx=ast.Load()), c)
+            for p, kind, val, desc in summ.sinks:
+                a = bind.get(p)
+                if isinstance(a, ast.Name) and a.id in cands:
+                    mapped = self.map_summary(val, bind, lambda x, n=n: self.value_at(x, n), keep_self=keep_self)
+                    out.append(Sink(n, a.id, kind, (), mapped, f'{short(c, 70)} -> {desc}', None))
+            # elements built *and registered* inside the callee (a phase method that emits its own edge)
+            if summ.ff is not None:
+                for g in summ.ff.elem_groups():
+                    if any(summ.ff.defs[d].param for s0 in g if s0.ctor_def is None and not s0.elem.startswith('<')
+                           for d in summ.ff.elem_defs(s0.elem, s0.node)):
+                        continue
+                    self._inner_serial += 1
+                    for s0 in g:
+                        mapped = self.map_summary(summ.ff.sink_value(s0), bind, lambda x, n=n: self.value_at(x, n), keep_self=keep_self)
+                        out.append(Sink(n, f'<{self._inner_serial}>', s0.kind, (), mapped, f'{short(c, 60)} -> {s0.desc}', -self._inner_serial))
+
+        def handle(n: Node, c: ast.Call) -> None:
+            f = c.func
+            if isinstance(f, ast.Name) and f.id in self.local_names:
+                for kind, what in self.resolve_callable(f, n) or []:
+                    if kind == 'attr':
+                        handle(n, ast.copy_location(ast.Call(func=what, args=c.args, keywords=c.keywords), c))
+                    else:
+                        summ, free = self.closure_summary(what)
+                        from_summary(n, c, summ, what, False, free, 'self' in free)
+                return
+            if not isinstance(f, ast.Attribute):
+                return
+            fv = f.value
+            if f.attr in DEP_METHODS and isinstance(fv, ast.Name) and (c.args or c.keywords):
+                out.append(Sink(n, fv.id, DEP_METHODS[f.attr], tuple(c.args) + tuple(k.value for k in c.keywords), None, short(c, 90), None))
+            elif f.attr in ('add', 'update') and isinstance(fv, ast.Attribute) and fv.attr in DEP_FIELDS and isinstance(fv.value, ast.Name) and c.args:
+                out.append(Sink(n, fv.value.id, DEP_FIELDS[fv.attr], tuple(c.args), None, short(c, 90), None))
+            elif isinstance(fv, ast.Name) and fv.id == self.selfname and f.attr != 'add_build':
+                cal = self._callee(c)
+                if cal is None or f.attr in CUTS:
+                    return
+                _, m, q, fn, skip = cal
+                if not any(isinstance(a, ast.Name) and a.id in cands for a in list(c.args) + [k.value for k in c.keywords]) \
+                        and not self.an.mentions(fn, ELEMENT_CLASS, 2):
+                    return
+                from_summary(n, c, self.an.summary(m, q, fn, self.depth - 1), fn, skip, (), skip)
+
         for n in self.cfg.nodes:
-            if n.kind == 'stmt' and isinstance(n.ast, ast.Assign) and isinstance(n.ast.value, ast.Call) \
-                    and call_name(n.ast.value) == ELEMENT_CLASS and len(n.ast.targets) == 1 and isinstance(n.ast.targets[0], ast.Name):
-                c = n.ast.value
-                inf = c.args[3] if len(c.args) > 3 else next((k.value for k in c.keywords if k.arg == 'infilenames'), None)
-                if inf is not None:
-                    name = n.ast.targets[0].id
-                    dd = [d.id for d in self.by_node.get(n.id, []) if d.name == name and d.strong]
-                    out.append(Sink(n, name, 'infiles', (inf,), None, f'{name} = {ELEMENT_CLASS}(..., {short(inf, 60)})', dd[0] if dd else None))
+            if n.kind == 'stmt' and isinstance(n.ast, (ast.Assign, ast.AnnAssign)) and isinstance(n.ast.value, ast.Call) \
+                    and call_name(n.ast.value) == ELEMENT_CLASS:
+                tgts = n.ast.targets if isinstance(n.ast, ast.Assign) else [n.ast.target]
+                if len(tgts) == 1 and isinstance(tgts[0], ast.Name):
+                    c = n.ast.value
+                    inf = c.args[3] if len(c.args) > 3 else next((k.value for k in c.keywords if k.arg == 'infilenames'), None)
+                    if inf is not None:
+                        name = tgts[0].id
+                        dd = [d.id for d in self.by_node.get(n.id, []) if d.name == name and d.strong]
+                        out.append(Sink(n, name, 'infiles', (inf,), None, f'{name} = {ELEMENT_CLASS}(..., {short(inf, 60)})', dd[0] if dd else None))
             for c in self.node_calls(n):
-                f = c.func
-                if not isinstance(f, ast.Attribute):
-                    continue
-                fv = f.value
-                if f.attr in DEP_METHODS and isinstance(fv, ast.Name) and c.args:
-                    out.append(Sink(n, fv.id, DEP_METHODS[f.attr], tuple(c.args), None, short(c, 90), None))
-                elif f.attr in ('add', 'update') and isinstance(fv, ast.Attribute) and fv.attr in DEP_FIELDS and isinstance(fv.value, ast.Name) and c.args:
-                    out.append(Sink(n, fv.value.id, DEP_FIELDS[fv.attr], tuple(c.args), None, short(c, 90), None))
-                elif isinstance(fv, ast.Name) and fv.id == self.selfname and f.attr != 'add_build' \
-                        and any(isinstance(a, ast.Name) and a.id in cands for a in c.args):
-                    cal = self._callee(c)
-                    if cal is None:
-                        continue
-                    _, m, q, fn, skip = cal
-                    summ = self.an.summary(m, q, fn, self.depth - 1)
-                    if summ is None or not summ.sinks:
-                        continue
-                    bind = bind_args(fn, c, skip)
-                    if bind is None:
-                        continue
-                    for p, kind, val, desc in summ.sinks:
-                        a = bind.get(p)
-                        if isinstance(a, ast.Name) and a.id in cands:
-                            mapped = self.map_summary(val, bind, lambda x, n=n: self.value_at(x, n))
-                            out.append(Sink(n, a.id, kind, (), mapped, f'{short(c, 70)} -> {desc}', None))
+                handle(n, c)
         self._sinks = out
         return out
 
@@ -849,6 +1135,8 @@ class FuncFlow:
     def registered(self, s: Sink) -> bool:
         """The element populated at the sink is the one handed to self.add_build(...) / returned afterwards
         (or it is a parameter: then registration is the caller's business)."""
+        if s.elem.startswith('<'):
+            return True          # built and registered inside a summarised callee
         if s.ctor_def is None and any(self.defs[d].param for d in self.elem_defs(s.elem, s.node)):
             return True
         return bool(self.reg_nodes(s))
@@ -857,6 +1145,8 @@ class FuncFlow:
         """Identity of the element a sink populates: the non-alias definitions of its name that reach the sink."""
         if s.ctor_def is not None:
             return frozenset([s.ctor_def])
+        if s.elem.startswith('<'):
+            return frozenset([-int(s.elem[1:-1])])
         return frozenset(d for d in self.elem_defs(s.elem, s.node)
                          if not (self.defs[d].strong and isinstance(self.defs[d].value, ast.Name)))
 
@@ -878,6 +1168,196 @@ class FuncFlow:
             groups = rest + [(roots, merged)]
         return [m for _, m in groups]
 
+    # -- closed world: where values go that the analysis does not follow ------------------------------------------
+    def opaque_uses(self) -> T.List[T.Tuple[Node, str, T.Tuple[ast.AST, ...], T.Optional[ast.AST], T.Optional[Val], bool]]:
+        """Calls whose effect on their arguments is unknown to this analysis:
+        (node, description, argument expressions, callee function if its source is available, pre-mapped value, receives self)."""
+        if self._opaque is not None:
+            return self._opaque
+        out: T.List[T.Tuple[Node, str, T.Tuple[ast.AST, ...], T.Optional[ast.AST], T.Optional[Val], bool]] = []
+
+        def args_of(c: ast.Call) -> T.Tuple[ast.AST, ...]:
+            return tuple(a.value if isinstance(a, ast.Starred) else a for a in c.args) + tuple(k.value for k in c.keywords)
+
+        def via_summary(n: Node, c: ast.Call, summ: T.Optional[Summary], fn: ast.AST, skip: bool, extra: T.Sequence[str], is_self: bool, name: str) -> None:
+            if summ is None:
+                if self.an.why_none.get(id(fn)) == 'recursion':
+                    return
+                out.append((n, f'{name} (not analysed: {self.an.why_none.get(id(fn), "?")})', args_of(c), fn, None, is_self))
+                return
+            if summ.impure_closure:
+                out.append((n, f'{name} (closure that changes captured variables)', args_of(c) + tuple(ast.Name(id=p, ctx=ast.Load()) for p in extra), None, None, is_self))
+                return
+            bind = bind_args(fn, c, skip)
+            if bind is None:
+                out.append((n, f'{name} (arguments passed with * / **)', args_of(c), fn, None, is_self))
+                return
+            for p in extra:
+                bind[p] = ast.copy_location(ast.Name(id=p, ctx=ast.Load()), c)
+            if summ.ff is not None:
+                for n2, desc, exprs, cfn, pre, recv_self in summ.ff.opaque_uses():
+                    val = pre if pre is not None else vjoin(*[summ.ff.value_at(x, n2) for x in exprs])
+                    mapped = self.map_summary(val, bind, lambda x, n=n: self.value_at(x, n), keep_self=is_self)
+                    out.append((n, f'{name} -> {desc}', (), cfn, mapped, recv_self and is_self))
+
+        def handle(n: Node, c: ast.Call) -> None:
+            f = c.func
+            if isinstance(f, ast.Name):
+                if f.id in self.local_names:
+                    cands = self.resolve_callable(f, n)
+                    if cands is None:
+                        out.append((n, f'call of the local callable `{f.id}`', args_of(c), None, None, False))
+                        return
+                    for kind, what in cands:
+                        if kind == 'attr':
+                            handle(n, ast.copy_location(ast.Call(func=what, args=c.args, keywords=c.keywords), c))
+                        else:
+                            summ, free = self.closure_summary(what)
+                            via_summary(n, c, summ, what, False, free, 'self' in free, f'closure {getattr(what, "name", "lambda")}()')
+                    return
+                cal = self._callee(c)
+                if cal is not None:
+                    via_summary(n, c, self.an.summary(cal[1], cal[2], cal[3], self.depth - 1), cal[3], False, (), False, f'{f.id}()')
+                elif not (f.id in PURE_NAMES or f.id[:1].isupper() or f.id in ('isinstance', 'len', 'bool', 'int', 'any', 'all', 'hasattr',
+                                                                                'getattr', 'print', 'repr', 'type', 'id', 'min', 'max', 'sum', 'range', 'open', 'super')):
+                    out.append((n, f'unknown function {f.id}()', args_of(c), None, None, False))
+                return
+            if isinstance(f, ast.Attribute):
+                if isinstance(f.value, ast.Call) and isinstance(f.value.func, ast.Name) and f.value.func.id == 'super':
+                    out.append((n, f'super().{f.attr}()', args_of(c), None, None, True))
+                    return
+                if isinstance(f.value, ast.Name) and f.value.id == self.selfname:
+                    if f.attr in CUTS:
+                        return
+                    cal = self._callee(c)
+                    if cal is None:
+                        out.append((n, f'unresolved self.{f.attr}()', args_of(c), None, None, True))
+                    else:
+                        via_summary(n, c, self.an.summary(cal[1], cal[2], cal[3], self.depth - 1), cal[3], cal[4], (), True, f'self.{f.attr}()')
+                    return
+                how = self._module_call(c)
+                if how is not None and how[0] == 'repo':
+                    pl = how[1]
+                    via_summary(n, c, self.an.summary(pl[1], pl[2], pl[3], self.depth - 1), pl[3], False, (), False, attr_chain(f) or f.attr)
+                elif how is not None and how[0] == 'unknown':
+                    out.append((n, f'repository function {attr_chain(f)}() (not resolved)', args_of(c), None, None, False))
+                return
+            if isinstance(f, ast.Call) and isinstance(f.func, ast.Name) and f.func.id == 'type':
+                return          # type(self)(...): a constructor
+            out.append((n, f'call of a computed callable `{short(f, 40)}`', args_of(c), None, None, False))
+
+        for n in self.cfg.nodes:
+            for c in self.node_calls(n):
+                handle(n, c)
+            # a nested function handed around as a value (callback) reads what it captures at an unknown time
+            if n.kind == 'stmt' and isinstance(n.ast, (ast.FunctionDef, ast.AsyncFunctionDef)):
+                fn = n.ast
+                called_only = True
+                for m in self.cfg.nodes:
+                    for r in self.node_roots(m):
+                        if isinstance(r, (ast.FunctionDef, ast.AsyncFunctionDef, ast.ClassDef)):
+                            continue
+                        calls_funcs = {id(c.func) for c in ast.walk(r) if isinstance(c, ast.Call)}
+                        for x in ast.walk(r):
+                            if isinstance(x, ast.Name) and x.id == fn.name and isinstance(x.ctx, ast.Load) and id(x) not in calls_funcs:
+                                called_only = False
+                if not called_only:
+                    caps = tuple(ast.Name(id=x, ctx=ast.Load()) for x in sorted({y.id for y in ast.walk(fn) if isinstance(y, ast.Name)} & self.local_names))
+                    out.append((self.cfg.exit_return if False else n, f'nested function {fn.name} used as a value', caps, None, None, 'self' in {c.id for c in caps}))
+        self._opaque = out
+        return out
+
+    def maybe_through(self, source: str, labels: T.Iterable[str]) -> T.Optional[str]:
+        """`source` is not among the definite labels of a sink.  Does it - or the object it is read from - arrive there
+        through a callee that was not followed (a maybe-label)?  Returns the description of that callee, else None:
+        then the sink provably does not receive it."""
+        kind, root, rest = label_root(source)
+        idents = re.findall(r'[A-Za-z_]\w*', source.split(':', 1)[1])
+        leaf = idents[-1] if idents else ''
+        for full in labels:
+            tag, inner = split_maybe(full)
+            if not tag:
+                continue
+            cfn, desc = self.an.sites[int(tag[1:-1])]
+            if inner == source:
+                return desc
+            if (inner == 'self' if root == 'self' else inner == f'param:{root}') and (cfn is None or self.an.mentions(cfn, leaf)):
+                return desc
+        return None
+
+    def element_handed_over(self, elem_roots: T.Set[int], source: str) -> T.Optional[str]:
+        """The build element itself is passed to (or captured by) a callee that was not followed, together with the
+        source or the object it is read from: that callee may populate the edge."""
+        kind, root, rest = label_root(source)
+        for n, desc, exprs, cfn, pre, recv_self in self.opaque_uses():
+            if pre is not None:
+                continue
+            if not any(isinstance(x, ast.Name) and x.id in self.local_names and set(self.elem_defs(x.id, n)) & elem_roots for x in exprs):
+                continue
+            labels = vjoin(*[self.value_at(x, n) for x in exprs])[1]
+            if source in labels or f'param:{root}' in labels or (root == 'self' and recv_self):
+                return desc
+        return None
+
+    def deep_callargs(self, callee: str, params: T.Sequence[str], _depth: int = 2) -> T.List[T.Tuple[str, T.FrozenSet[str], ast.AST]]:
+        """(call text, labels of the arguments bound to `params`, node) for every call of self.<callee>(...) / <callee>(...)
+        in this function and in the summarised helpers it calls (mapped back to this function's terms)."""
+        out: T.List[T.Tuple[str, T.FrozenSet[str], ast.AST]] = []
+        r = self.an.resolve_self(callee) if self.selfname else None
+        if r is None and self.mod.has_func(callee):
+            r = (self.mod, callee, self.mod.func(callee))
+        if r is None:
+            return out
+        cfn = r[2]
+        for node, c in self.calls_of(callee):
+            b = bind_args(cfn, c, is_method(cfn))
+            if b is None:
+                raise Undecided(f'{self.qual}: cannot bind arguments of `{short(c)}`')
+            labels: T.Set[str] = set()
+            for p in params:
+                if p in b:
+                    labels |= self.origins_at(b[p], node)
+            out.append((short(c, 160), frozenset(labels), c))
+        if _depth <= 0:
+            return out
+        seen: T.Set[int] = set()
+        for n in self.cfg.nodes:
+            for c in self.node_calls(n):
+                cal = None
+                extra: T.Sequence[str] = ()
+                fn2: T.Optional[ast.AST] = None
+                skip = False
+                keep = False
+                if isinstance(c.func, ast.Name) and c.func.id in self.local_names:
+                    for kind, what in self.resolve_callable(c.func, n) or []:
+                        if kind == 'nested':
+                            summ, extra = self.closure_summary(what)
+                            fn2, keep = what, 'self' in extra
+                else:
+                    cal = self._callee(c)
+                    if cal is not None and call_name(c) not in (f'self.{callee}', callee):
+                        fn2, skip, keep = cal[3], cal[4], cal[4]
+                        summ = self.an.summary(cal[1], cal[2], cal[3], self.depth - 1)
+                if fn2 is None or id(c) in seen or not self.an.mentions(fn2, callee, 2):
+                    continue
+                seen.add(id(c))
+                if summ is None or summ.ff is None or summ.impure_closure:
+                    continue
+                b = bind_args(fn2, c, skip)
+                if b is None:
+                    continue
+                for p in extra:
+                    b[p] = ast.copy_location(ast.Name(id=p, ctx=ast.Load()), c)
+                self.an.stack.append(id(fn2))
+                try:
+                    inner = summ.ff.deep_callargs(callee, params, _depth - 1)
+                finally:
+                    self.an.stack.pop()
+                for text, labels2, _ in inner:
+                    mapped = self.map_summary((frozenset(), labels2), b, lambda x, n=n: self.value_at(x, n), keep_self=keep)
+                    out.append((f'{short(c, 60)} -> {text}', mapped[1], c))
+        return out
+
     # -- def-use liveness of accumulations ------------------------------------------------------------------
     def node_roots(self, n: Node) -> T.List[ast.AST]:
         st = n.ast
@@ -893,6 +1373,31 @@ class FuncFlow:
             return [st.type] if getattr(st, 'type', None) is not None else []  # type: ignore[union-attr]
         return []
 
+    def _pure_names(self, e: ast.AST) -> T.List[ast.Name]:
+        """Names of `e` whose only use is to compute the value of `e` (not handed to a call that may keep or act on them)."""
+        out: T.List[ast.Name] = []
+
+        def rec(x: ast.AST) -> None:
+            if isinstance(x, ast.Name):
+                out.append(x)
+                return
+            if isinstance(x, ast.Call):
+                f = x.func
+                pure = (isinstance(f, ast.Name) and (f.id in PURE_NAMES or (f.id in BUILTIN_NAMES and f.id not in IMPURE_BUILTINS and f.id != 'print'))) \
+                    or (attr_chain(f) or '').startswith('os.path.') \
+                    or (isinstance(f, ast.Attribute) and f.attr in ('copy', 'format', 'join', 'replace', 'split', 'strip', 'startswith', 'endswith', 'get', 'keys', 'values', 'items'))
+                if not pure:
+                    return            # arguments (and receiver) of other calls count as used
+            if isinstance(x, (ast.FunctionDef, ast.AsyncFunctionDef, ast.Lambda, ast.ClassDef)):
+                for y in ast.walk(x):
+                    if isinstance(y, ast.Name):
+                        out.append(y)
+                return
+            for ch in ast.iter_child_nodes(x):
+                rec(ch)
+        rec(e)
+        return out
+
     def dead_accumulations(self) -> T.List[Def]:
         """Weak definitions (append/extend/+=/add/update on a local) that no read ever observes, directly or through
         other definitions: the collected values leave the function nowhere.  Any read that is not the right-hand side
@@ -904,9 +1409,10 @@ class FuncFlow:
             owner: T.Dict[int, T.List[int]] = {}
             for d2 in self.by_node.get(n.id, []):
                 if d2.value is not None and not d2.param:
-                    for x in ast.walk(d2.value):
-                        if isinstance(x, ast.Name):
-                            owner.setdefault(id(x), []).append(d2.id)
+                    if not d2.strong and not self._fresh_container(d2):
+                        continue      # storing into a container that may be owned elsewhere is an effect: its operands are used
+                    for x in self._pure_names(d2.value):
+                        owner.setdefault(id(x), []).append(d2.id)
             recv: T.Set[int] = set()
             roots = self.node_roots(n)
             for r in roots:
@@ -936,8 +1442,29 @@ class FuncFlow:
                     live.add(d)
                     changed = True
         reachable = self.cfg.reachable([self.cfg.entry], include_start=True)
+        self._live = live
+        self._reachable_nodes = reachable
+        self._consumers = consumers
         return [d for d in self.defs if not d.strong and not d.param and d.id not in live and d.node in reachable
                 and d.name not in self.params and self._fresh_container(d)]
+
+    def dead_defs(self, strong: bool = True) -> T.List[Def]:
+        """Plain assignments `name = expr` (one name, no unpacking, not a loop/with/except target) whose value no read ever
+        observes, directly or through other definitions: the classic "computed after its last use" slip."""
+        self.dead_accumulations()
+        out = []
+        for d in self.defs:
+            if not d.strong or d.param or d.id in self._live or d.node not in self._reachable_nodes or d.name in self.params:
+                continue
+            n = self.cfg.nodes[d.node]
+            st = n.ast
+            if n.kind != 'stmt' or d.index is not None or d.value is None or d.name.startswith('_'):
+                continue
+            if isinstance(st, ast.Assign) and len(st.targets) == 1 and isinstance(st.targets[0], ast.Name) and st.value is d.value:
+                out.append(d)
+            elif isinstance(st, ast.AnnAssign) and isinstance(st.target, ast.Name) and st.value is d.value:
+                out.append(d)
+        return out
 
     FRESH_CTORS = {'list', 'set', 'dict', 'tuple', 'OrderedSet', 'OrderedDict', 'defaultdict', 'deque'}
 
@@ -969,10 +1496,15 @@ class FuncFlow:
         out = []
         seen: T.Set[int] = set()
         for n in self.cfg.nodes:
-            for c in self.node_calls(n):
-                if call_name(c) in (f'self.{callee}', callee) and id(c) not in seen:
-                    seen.add(id(c))
-                    out.append((n, c))
+            for c0 in self.node_calls(n):
+                cs = [c0]
+                if isinstance(c0.func, ast.Name) and c0.func.id in self.local_names:
+                    cs = [ast.copy_location(ast.Call(func=w, args=c0.args, keywords=c0.keywords), c0)
+                          for k, w in (self.resolve_callable(c0.func, n) or []) if k == 'attr']
+                for c in cs:
+                    if call_name(c) in (f'self.{callee}', callee) and id(c0) not in seen:
+                        seen.add(id(c0))
+                        out.append((n, c))
         return out
 
     def stores(self, chain: str) -> T.List[T.Tuple[Node, ast.AST, T.Optional[int]]]:
